@@ -221,6 +221,9 @@ def fixed_probes():
               "a FromUtf8Error (which owns the Vec) moved to another thread while this thread allocates"))
     P.append(("share_via_vec", False, "trait", ["pub fn NAME() {", "    let b = Bump::new();", "    let mut v = bumpalo::vec![in &b; 1u8];", "    std::thread::scope(|s| {", "        s.spawn(move || v.push(2));", "        let _ = b.alloc(1u8);", "    });", "}"],
               "a Vec moved to another thread while this thread allocates"))
+    # a result must be allowed to outlive the source it was copied from (every method that copies from a borrowed source)
+    for name, setup, expr in COPY_EXPRS:
+        P.append(("ok_outlives_source_%s" % name, True, "borrowck", ["pub fn NAME<'a>(b: &'a Bump) -> impl Sized + 'a {", "    %s" % setup, "    %s" % expr, "}"], "%s: the result outlives the source it was copied from" % name))
     # auto traits
     send_yes = [("Bump", "Bump"), ("Bump<8>", "Bump<8>"), ("Box<u32>", "bumpalo::boxed::Box<'static, u32>"), ("IntoIter<u8>", "bumpalo::collections::vec::IntoIter<'static, u8>"), ("&mut u32", "&'static mut u32"),
                 ("Pin<Box<u32>>", "std::pin::Pin<bumpalo::boxed::Box<'static, u32>>"), ("Box<[u8]>", "bumpalo::boxed::Box<'static, [u8]>"), ("&mut Bump", "&'static mut Bump")]
@@ -293,6 +296,22 @@ API_EXPRS = [
     ("Box_send_downcast_ok", "%s.downcast::<u32>().ok().unwrap()" % DYN_ANY_SEND), ("Box_send_downcast_err", "%s.downcast::<u8>().err().unwrap()" % DYN_ANY_SEND),
     ("Api2_Vec", "allocator_api2::vec::Vec::<u8, &Bump>::new_in(&b)"), ("Api2_Box", "allocator_api2::boxed::Box::new_in(5u32, &b)"),
     ("Allocator_allocate", "{ use allocator_api2::alloc::Allocator; let a: &Bump = &b; (a, a.allocate(std::alloc::Layout::new::<u32>()).unwrap()).0 }"),
+]
+
+SRC_SLICE = "let src = vec![1u8, 2];"
+SRC_STR = "let src = String::from(\"ab\");"
+COPY_EXPRS = [
+    ("alloc_slice_copy", SRC_SLICE, "b.alloc_slice_copy(&src)"), ("try_alloc_slice_copy", SRC_SLICE, "b.try_alloc_slice_copy(&src).unwrap()"),
+    ("alloc_slice_clone", SRC_SLICE, "b.alloc_slice_clone(&src)"), ("try_alloc_slice_clone", SRC_SLICE, "b.try_alloc_slice_clone(&src).unwrap()"),
+    ("alloc_str", SRC_STR, "b.alloc_str(&src)"), ("try_alloc_str", SRC_STR, "b.try_alloc_str(&src).unwrap()"),
+    ("alloc_slice_fill_clone", SRC_STR, "b.alloc_slice_fill_clone(2, &src.len())"), ("try_alloc_slice_fill_clone", SRC_STR, "b.try_alloc_slice_fill_clone(2, &src.len()).unwrap()"),
+    ("alloc_slice_fill_iter", SRC_SLICE, "b.alloc_slice_fill_iter(src.iter().copied())"),
+    ("String_from_str_in", SRC_STR, "%s::from_str_in(&src, b)" % BS), ("String_from_utf8_lossy_in", SRC_SLICE, "%s::from_utf8_lossy_in(&src, b)" % BS),
+    ("String_from_utf16_in", "let src = vec![97u16];", "%s::from_utf16_in(&src, b).unwrap()" % BS), ("String_push_str", SRC_STR, "{ let mut s = %s::new_in(b); s.push_str(&src); s }" % BS),
+    ("Vec_extend_from_slice", SRC_SLICE, "{ let mut v = %s::new_in(b); v.extend_from_slice(&src); v }" % BV), ("Vec_extend_from_slice_copy", SRC_SLICE, "{ let mut v = %s::new_in(b); v.extend_from_slice_copy(&src); v }" % BV),
+    ("Vec_extend_from_slices_copy", SRC_SLICE, "{ let mut v = %s::new_in(b); v.extend_from_slices_copy(&[&src[..], &src[..1]]); v }" % BV),
+    ("Vec_from_iter_in", SRC_SLICE, "%s::from_iter_in(src.iter().copied(), b)" % BV), ("Box_from_iter_in", SRC_SLICE, "%s::<[u8]>::from_iter_in(src.iter().copied(), b)" % BX),
+    ("format_macro", SRC_STR, "bumpalo::format!(in b, \"{}\", src)"),
 ]
 
 CARGO_TOML = """[package]
